@@ -147,6 +147,16 @@ Definition forward (wire : bool) (o : route_opts) (q : request) : outcome upstre
 Definition respond (r : response) : response :=
   {| rs_status := rs_status r; rs_headers := remove_hop (rs_headers r); rs_body := rs_body r |}.
 
+(* informational (1xx, not 101) responses the upstream sends before the final one:
+   httputil.ReverseProxy (Got1xxResponse trace hook) writes each through the ResponseWriter with
+   its headers as they are; the final response follows as [respond] says.  stdlib behaviour:
+   modelled, not verified.  What fabio contributes is its responseWriter wrapper
+   (http_proxy.go:281-300), through which every one of these WriteHeader calls must pass. *)
+Definition respond_info (r : response) : response :=
+  {| rs_status := rs_status r; rs_headers := rs_headers r; rs_body := [] |}.
+Definition respond_all (infos : list response) (final : response) : list response * response :=
+  (map respond_info infos, respond final).
+
 (* no route (http_proxy.go:102-113): status, page; no upstream *)
 Definition noroute_status (configured : Z) : Z :=
   if (configured <? 100)%Z || (999 <? configured)%Z then 404%Z else configured.
